@@ -1,2 +1,4 @@
 from props.client_props import gen_c17
-PROP = {"id": "C17", "stages": [{"name": "client", "target": "h_client", "gen": gen_c17, "shard": 12}], "trivial_tags": [], "rule": "", "assumptions": []}
+PROP = {"id": "C17", "stages": [{"name": "client", "target": "h_client", "gen": gen_c17, "shard": 12}], "trivial_tags": [],
+        "rule": 'long random histories (10-40 calls, thorough 40-200) mixing successful, refused, cancelled and failing transfers (peer reset, failing sink/source, unreachable passive endpoint) in all four methods with mode switches and reconnects; client descriptor table from libc interposition after every call and after destruction.',
+        "assumptions": ["in-memory control transport (a socket_base subclass) stands in for the TCP control socket; data connections are real loopback TCP", "oracle values (read sizes, kernel-chosen ports, connect results) are taken from the implementation run"]}
